@@ -82,6 +82,7 @@ BUILTIN_STRUCTS = {
     'Rev': (['I'], [('iter', 'I')]),
     'Zip': (['A', 'B'], [('a', 'A'), ('b', 'B'), ('index', 'usize'), ('len', 'usize'), ('a_len', 'usize')]),
     'Map': (['I', 'F'], [('iter', 'I'), ('f', 'F')]),
+    'Filter': (['I', 'P'], [('iter', 'I'), ('predicate', 'P')]),
     'Cloned': (['I'], [('it', 'I')]),
     'Peekable': (['I'], [('iter', 'I'), ('peeked', 'Option<Option<&usize>>')]),
     'Copied': (['I'], [('it', 'I')]),
@@ -249,6 +250,11 @@ def array_parts(t):
     return parts[0].strip(), None
 
 
+def is_closure_ty(t):
+    """the type IS a closure (not merely a generic type with a closure parameter, such as Filter<I, {closure@..}>)"""
+    return t.startswith('{closure') or t.startswith('[closure') or bool(re.match(r'^[\w:]+::\{closure#\d+\}$', t))
+
+
 def _nleaves(t):
     if t in PRIMS:
         return 1
@@ -265,15 +271,19 @@ def _nleaves(t):
         return sum(nleaves(x) for x in split_top(t[1:-1]))
     if t.startswith('fn(') or t.startswith('for<') or t.startswith('unsafe fn') or t.startswith('extern '):
         return 1
-    if '{closure' in t:
+    if is_closure_ty(t):
         return sum(CLOSURES.get(t, []))
     if t.startswith('fn item') or t.startswith('{'):
         return 0
     name, args = ty_split_adt(t)
     if name == 'Option':
         return 1 + nleaves(args[0])
-    if name == 'Result':
+    if name == 'ControlFlow' and len(args) == 1:
+        args = [args[0], '()']          # ControlFlow<B, C = ()>
+    if name in ('Result', 'ControlFlow'):
         return 1 + max(nleaves(args[0]), nleaves(args[1]))
+    if name == 'Infallible':
+        return 0
     if name in ENUM1:
         return 1
     if name == 'PhantomData':
@@ -290,15 +300,17 @@ def field_types(t):
     name, args = ty_split_adt(t)
     if name == 'Option':
         return ['isize', args[0]]
-    if name == 'Result':
-        return ['isize', args[0]]
+    if name == 'ControlFlow' and len(args) == 1:
+        args = [args[0], '()']
+    if name in ('Result', 'ControlFlow'):
+        return ['isize', args[0] if nleaves(args[0]) >= nleaves(args[1]) else args[1]]
     params, fts = STRUCTS[name]
     env = dict(zip(params, args))
     return [subst(ft, env) for _, ft in fts]
 
 
 def field_off(t, k):
-    if '{closure' in t:
+    if is_closure_ty(norm_ty(t)):
         return sum(CLOSURES.get(norm_ty(t), [])[:k])
     fs = field_types(t)
     return sum(nleaves(f) for f in fs[:k])
@@ -326,7 +338,7 @@ def leaf_types(t):
         return ['isize'] + leaf_types(args[0])
     if name in ENUM1:
         return ['i8']
-    if name == 'PhantomData' or '{closure' in t:
+    if name == 'PhantomData' or is_closure_ty(t):
         return []
     if name in STRUCTS:
         out = []
@@ -534,11 +546,11 @@ def parse_rvalue(rv):
     if rv.startswith('('):
         j = match_paren(rv, 0)
         return ('agg', [parse_operand(x) for x in split_top(rv[1:j])])
-    m = re.match(r'^((?:[\w:]|<[^(]*?>)+?)::(Some|None|Ok|Err)(?:\((.*)\))?$', rv, re.S)
-    if m and re.match(r'^(std::option::|core::option::)?Option(::<.*>)?$|^(std::result::|core::result::)?Result(::<.*>)?$', m.group(1), re.S):
+    m = re.match(r'^((?:[\w:]|<[^(]*?>)+?)::(Some|None|Ok|Err|Continue|Break)(?:\((.*)\))?$', rv, re.S)
+    if m and re.match(r'^(std::option::|core::option::)?Option(::<.*>)?$|^(std::result::|core::result::)?Result(::<.*>)?$|^(std::ops::|core::ops::)?ControlFlow(::<.*>)?$', m.group(1), re.S):
         v = m.group(2)
         ops = [parse_operand(x) for x in split_top(m.group(3))] if m.group(3) else []
-        return ('variant', {'None': 0, 'Some': 1, 'Ok': 0, 'Err': 1}[v], ops, m.group(1))
+        return ('variant', {'None': 0, 'Some': 1, 'Ok': 0, 'Err': 1, 'Continue': 0, 'Break': 1}[v], ops, m.group(1))
     m = re.match(r'^([\w:]+(?:::<.*?>)?) \{ (.*) \}$', rv, re.S)
     if m:
         ops = []
